@@ -79,4 +79,106 @@ theorem redundancy_mirror_silk_none (o : DecSkel.Oracle) (r : DecSkel.Run) (len 
   simp only [if_neg hne]
   rw [if_neg (show ¬ tellA + 17 + 0 ≤ 8 * len by omega)]
 
+/-! ### The SILK-only corner, decided
+
+  The decoder tests `ec_tell + 17 ≤ 8·len` against the ACTUAL frame length `len = ⌈tellB/8⌉ + rb`, the
+  encoder tested `ec_tell + 17 ≤ 8·(max_data_bytes−1)` against the BUDGET.  They can only disagree when
+  `rb = 2`, the flag bit cost no whole bit (`tellB = tellA`) and `tellA ≡ 0 (mod 8)`.  But `rb = 2` means
+  `max_redundancy ≤ 2`, i.e. the budget itself is within two bytes of `⌈tellB/8⌉`, and then the encoder's own
+  gate gives the decoder's.  So the disagreement is arithmetically impossible — provided the byte count fed
+  into the clamp is at least 3, which `compute_redundancy_bytes` guarantees (it returns 0 or more than
+  `4 + 8·channels`). -/
+
+theorem computeRedundancyBytes_range (m b fr ch : Int) (hch : 1 ≤ ch) (hch2 : ch ≤ 2) :
+    computeRedundancyBytes m b fr ch = 0 ∨ 13 ≤ computeRedundancyBytes m b fr ch := by
+  unfold computeRedundancyBytes
+  dsimp only
+  split
+  · right; omega
+  · left; rfl
+
+/-- Encoder-side arithmetic only: gate of :2220 passed, flag coded (`tellA ≤ tellB`), byte count clamped
+    as at :2239-2240 from a value ≥ 3 ⇒ the decoder's gate passes on the actual frame length. -/
+theorem silk_gate_agrees (m tellA tellB xrb : Int) (hgate : tellA + 17 ≤ 8 * (m - 1)) (hmono : tellA ≤ tellB)
+    (hx : 3 ≤ xrb) :
+    tellA + 17 ≤ 8 * ((tellB + 7) / 8 + min 257 (max 2 (min ((m - 1) - (tellB + 7) / 8) xrb))) := by
+  omega
+
+/-- **SILK-only redundancy mirror, without any decoder-side hypothesis.**  For the encoder skeleton's own
+    signalling (`frRedSig` in SILK-only mode returned `redundancy = true` with `rb` bytes; the byte count
+    `x.rb` it clamps comes from `compute_redundancy_bytes`, hence is ≥ 3) and C08's lock-step of the one
+    flag bit (`tellA ≤ tellB`, the decoder reads `celt_to_silk` back at the same `ec_tell`): the decoder
+    skeleton, on the frame of `⌈tellB/8⌉ + rb` bytes the encoder emits, recovers
+    `(redundancy, celt_to_silk, redundancy_bytes) = (1, celt_to_silk, rb)`. -/
+theorem redundancy_mirror_silk_full (fi : FrameIn) (x : Mid) (e : FrameOr) (o : DecSkel.Oracle) (r : DecSkel.Run)
+    (c2s : Bool) (hmode : x.st.mode = Opus.EncDecide.MODE_SILK_ONLY) (hx : 3 ≤ x.rb)
+    (hred : (frRedSig fi x e).1 = true) (hmono : e.tellA ≤ e.tellB)
+    (h1 : o.bit r.k 1 e.tellA = (b2i c2s, e.tellB)) :
+    (DecSkel.parseRedundancy o DecSkel.MODE_SILK ((e.tellB + 7) / 8 + (frRedSig fi x e).2.1) e.tellA r).1 =
+      { redundancy := 1, celt_to_silk := b2i c2s, bytes := (frRedSig fi x e).2.1, len := (e.tellB + 7) / 8,
+        tell := e.tellB } := by
+  have hne : ¬ (Opus.EncDecide.MODE_SILK_ONLY = Opus.EncDecide.MODE_HYBRID) := by decide
+  unfold frRedSig at hred ⊢
+  dsimp only at hred ⊢
+  split at hred
+  · rename_i hb
+    rw [if_pos hb]
+    dsimp only
+    rw [hmode, if_neg hne]
+    unfold readsB redGate at hb
+    rw [hmode] at hb
+    simp only [if_neg hne, Bool.and_eq_true, decide_eq_true_eq] at hb
+    have hg : e.tellA + 17 ≤ 8 * (fi.maxDataBytes - 1) := by omega
+    have hrb2 : 2 ≤ min 257 (max 2 (min (fi.maxDataBytes - 1 - (e.tellB + 7) / 8) x.rb)) := by omega
+    exact redundancy_mirror_silk o r e.tellA e.tellB _ c2s hrb2
+      (silk_gate_agrees fi.maxDataBytes e.tellA e.tellB x.rb hg hmono hx) h1
+  · cases hred
+
+/-- In the skeleton the byte count that reaches the clamp of :2239 with `redundancy` set always comes from
+    `compute_redundancy_bytes` and is non-zero, hence ≥ 13. -/
+theorem mid_rb_ge (s : St) (fi : FrameIn) (e : FrameOr) (x : Mid) (hch : 1 ≤ s.streamChannels ∧ s.streamChannels ≤ 2)
+    (hx : frSilk fi (frPre s fi) e = .cont x) (hr : x.redundancy = true) : 13 ≤ x.rb := by
+  have hp : (frPre s fi).redundancy = true → 13 ≤ (frPre s fi).rb := by
+    have key : ∀ (b : Bool) (sc br : Int), 1 ≤ sc → sc ≤ 2 →
+        (b && decide ((if b = true then computeRedundancyBytes fi.maxDataBytes br (s.fs / fi.frameSize) sc else 0) ≠ 0)) = true →
+        13 ≤ (if b = true then computeRedundancyBytes fi.maxDataBytes br (s.fs / fi.frameSize) sc else 0) := by
+      intro b sc br h1 h2 hb
+      cases b
+      · simp at hb
+      · simp only [if_true, Bool.true_and, decide_eq_true_eq] at hb ⊢
+        rcases computeRedundancyBytes_range fi.maxDataBytes br (s.fs / fi.frameSize) sc h1 h2 with h | h
+        · exact absurd h hb
+        · exact h
+    unfold frPre
+    dsimp only
+    split <;> exact key _ _ _ hch.1 hch.2
+  have hsc : (frPre s fi).st.streamChannels = s.streamChannels := by
+    unfold frPre; dsimp only; split <;> rfl
+  generalize frPre s fi = p at *
+  unfold frSilk at hx
+  split at hx
+  · cases hx; exact hp hr
+  · split at hx
+    · cases hx
+    · split at hx
+      · cases hx
+      · split at hx
+        · cases hx
+        · split at hx
+          · cases hx
+          · split at hx
+            · cases hx
+              dsimp only at hr ⊢
+              rcases computeRedundancyBytes_range fi.maxDataBytes p.st.bitrateBps (p.st.fs / fi.frameSize)
+                p.st.streamChannels (by rw [hsc]; exact hch.1) (by rw [hsc]; exact hch.2) with h | h
+              · simp [h] at hr
+              · exact h
+            · cases hx; exact hp hr
+
+/-- Hybrid CBR needs no CELT contract for the decoder's gate: CELT returns exactly its budget
+    `max_data_bytes − 1 − rb`, so the frame has `max_data_bytes − 1` bytes and the encoder's gate is the
+    decoder's. -/
+theorem hybrid_cbr_gate (m tellA rb celtMain : Int) (hgate : tellA + 17 + 20 ≤ 8 * (m - 1))
+    (hcbr : celtMain = m - 1 - rb) : tellA + 17 + 20 ≤ 8 * (celtMain + rb) := by omega
+
 end Opus.EncSkel.Proofs
